@@ -74,10 +74,13 @@ def run(tier):
                   [["--n", 4, "--alpha", "A3", "--plus-heavy-k2", "--bound", 1, "--direct-bound", 1], ["--n", 4, "--alpha", "A3", "--plus-heavy-k2", "--bound", 1, "--direct-bound", 1, "--ks", "1,2"]]),
                  ("symmetric families under 60 renumberings x U (exact) and under 20 x M2 (approximate k=2), every reduce outcome",
                   [["--families", FAMS_SYM, "--relabel", 60, "--alpha", "U", "--bound", 0, "--direct-bound", 0], ["--families", FAMS_SYM, "--relabel", 20, "--alpha", "M2", "--bound", 0, "--direct-bound", 0, "--ks", "2"]]),
-                 ("size thresholds: approximate TBB variants k=2 on pseudo-random graphs with roughly 1200 / 1400 / 1880 non-spanner edges (reductions and parallel_for over more than 1024 elements), every reduce outcome on a 12-block grid",
-                  [["--families", "lcg:120:2000:2,lcg:100:1500:3,lcg:90:1300:4", "--alpha", "R9x1", "--big", "--bound", 0, "--direct-bound", 0, "--ks", "2"]]),
+                 ("size thresholds: approximate TBB variants k=2 on pseudo-random graphs with roughly 1200 / 1400 non-spanner edges (reductions and parallel_for over more than 1024 elements), every reduce outcome on a 12-block grid",
+                  [["--families", "lcg:100:1500:3,lcg:90:1300:4", "--alpha", "R9x1", "--big", "--bound", 0, "--direct-bound", 0, "--ks", "2"]]),
                  ("more than 128 candidate cycles: 400 pseudo-random graphs n=18..24, m=3n x 3 pseudo-random weightings in 1..30, exact TBB variants, every reduce outcome on a 12-block grid, Horton reference",
                   [["--families", ",".join("lcg:%d:%d:%d" % (n, 3 * n, sd) for n in (18, 20, 22, 24) for sd in range(100)), "--alpha", "R30x3", "--big", "--big-above", 30, "--bound", 0, "--direct-bound", 0]]),
+                 ("non-integer (dyadic) weights: G(4) x D exact and approximate k=2, bound 1; K6, K7, K7 + pendant vertex, wheel:7 x menu Q36x150 (weights in quarters), exact TBB variants, every reduce outcome",
+                  [["--n", 4, "--alpha", "D", "--bound", 1, "--direct-bound", 1], ["--n", 4, "--alpha", "D", "--bound", 1, "--direct-bound", 1, "--ks", "2"],
+                   ["--families", "K:6,K:7,Kp:7:1,pK:7:1,wheel:7", "--alpha", "Q36x150", "--bound", 0, "--direct-bound", 0, "--wchunks", 8]]),
                  ("dense core + pendant vertices (support vectors with >= |V| entries: the vertex-range reduction of the signed variant, with leaves that find nothing): "
                   "K7/K8 with 1-2 pendant vertices numbered last or first, K7, K8, wheel:7 x menu R3x400, all exact TBB variants, every reduce outcome, default for-schedules",
                   [["--families", "Kp:7:1,pK:7:1,Kp:7:2,Kp:8:1,K:7,K:8,wheel:7", "--alpha", "R3x400", "--bound", 0, "--direct-bound", 0, "--wchunks", 16]])]
